@@ -280,6 +280,73 @@ def refused_then_corrected(prop, tier, model, bres, chk, n_quick, n_thorough, st
         shutil.rmtree(tmp, ignore_errors=True)
 
 
+def modelwrite_stream(prop, tier, model, bres, chk, n_quick, n_thorough, stream='model-write'):
+    """end to end: the bytes of the whole file vs `modelWrite` (Model/File.lean) applied to a description read off the
+    live objects after the write (sets in generator order with their logical record types) and the specification's
+    rows and no-format payloads: ties the composition — record order, record types, framing — in one comparison"""
+    if not bres.ok:
+        return
+    R = rng(prop, stream)
+    n = n_quick if tier == 'quick' else n_thorough
+    tmp = tempfile.mkdtemp(prefix='verif_mw_')
+    reqs, meta = [], []
+    try:
+        from dliswriter.logical_record import eflr_types as T
+        for i in range(n):
+            spec = filegen.gen_spec(R, small=(i % 2 == 0))
+            spec['hc'] = False
+            res = filegen.write(spec, tmp)
+            chk.case(stream, nontrivial_key=(stream, i) if res['status'] == 'ok' else None,
+                     sample={'index': i, 'status': res['status'], 'logical_files': len(spec['lfs'])})
+            if res['status'] != 'ok':
+                continue
+            b = res['built']
+            sim, exp = content.expected(spec)
+            s_ = spec['sul']
+            toks = ['wfile', str(s_['max_record_length']), cps(str(s_['sul_sequence_number'])), cps(s_['set_identifier']),
+                    '0', '~', '~', str(len(spec['lfs']))]
+            try:
+                for li, L in enumerate(b.df.logical_files):
+                    fh = L.file_header_item
+                    o = fh.origin_reference
+                    toks += [str(-1 if o is None else o), str(fh.copy_number), cps(fh.name), str(fh.sequence_number), cps(fh.header_id)]
+                    sets = list(L._eflr_sets[T.OriginSet].values())
+                    for st, dct in L._eflr_sets.items():
+                        if st is not T.OriginSet:
+                            sets += list(dct.values())
+                    sets = [x for x in sets if x.n_items]
+                    toks.append(str(len(sets)))
+                    for x in sets:
+                        toks.append(str(int(x.logical_record_type.value)))
+                        toks += eflr.desc_req(eflr.set_desc(x)).split(' ')[1:]
+                    nfs = exp[li]['noformat']
+                    toks.append(str(len(nfs)))
+                    for ident, payload in nfs:
+                        toks += [str(ident['origin']), str(ident['copy']), cps(ident['name']), hexs(payload)]
+                    frs = exp[li]['frames']
+                    toks.append(str(len(frs)))
+                    for fr in frs:
+                        ident = fr['ident']
+                        toks += [str(ident['origin']), str(ident['copy']), cps(ident['name']), str(len(fr['rows']))]
+                        for row in fr['rows']:
+                            toks.append(';'.join(f'{sz}x' + ','.join(str(e) for e in els)
+                                                 for (sz, cnt), els in zip(fr['layout'], row)) or '-')
+            except eflr.Unmodelled:
+                chk.count(f'{stream}:value-outside-the-model')
+                continue
+            reqs.append(' '.join(toks))
+            meta.append(({'index': i, 'spec': describe(spec)}, res['data']))
+        for (case, data), rep in zip(meta, model.ask(reqs)):
+            if rep == 'err unmodelled':
+                chk.count(f'{stream}:value-outside-the-model')
+                continue
+            irep = 'ok ' + hexs(data)
+            if rep != irep:
+                chk.disagree(stream, case, irep, rep)
+    finally:
+        shutil.rmtree(tmp, ignore_errors=True)
+
+
 def sample_of(r):
     s = r.spec
     return {'index': r.index, 'vrl': s['sul']['max_record_length'], 'logical_files': len(s['lfs']),
